@@ -544,6 +544,8 @@ static const struct tmpl templates[] = {
       { K_FIFO, 3, 3, 2, { 1, 3 }, { { POP }, { POP, PUSH, POP } } } },
     { "stale-next2", "stale next in uring_fifo_find: T0 pop || T1 pop,push,push on a 2-element FIFO of capacity 3",
       { K_FIFO, 3, 2, 2, { 1, 3 }, { { POP }, { POP, PUSH, PUSH } } } },
+    { "stale-next3", "uring_fifo_find walking while two other threads pop and push: T0 pop || T1 pop,push || T2 pop,push on a full 3-element FIFO",
+      { K_FIFO, 3, 3, 3, { 1, 2, 2 }, { { POP }, { POP, PUSH }, { POP, PUSH } } } },
     { "push-push-empty", "two pushes racing on an empty FIFO, then a pop",
       { K_FIFO, 2, 0, 2, { 2, 1 }, { { PUSH, POP }, { PUSH } } } },
     { "pop-push-one", "pop racing push on a one-element FIFO",
